@@ -41,6 +41,9 @@ CHECKS = {
 
  'C14': ('Q2 structural identity of the split mapping against the interval problems (original-grid steps, shifted indices, coverage), Q3 embeddings split<->unsplit by concatenation', '6 C14',
          'Uncoupled portfolios (aligned/unaligned horizons, anchored weekly intervals, one-step tail, day/minute main unit, symbolic wacc): split and unsplit problem have the same feasible set and value under concatenation for all parameters and prices; storages with start=end: every split point is feasible for the unsplit problem with at least its value (split optimum <= unsplit optimum, limits and balances hold on the original grid).'),
+
+ 'C09': ('Q3 two-way embeddings under the relabelling of variable keys between a renamed/permuted portfolio and the baseline; Q1 equality of reported tables up to relabelling', '6 C09',
+         'For adversarial namings (numeric, prefix/suffix, separators, swapped, spaces, longer out-node name, 2-digit index collisions) and asset orders (all 24 in the thorough tier), one- and two-node storage and a LinkedAsset referenced by name: feasible set, value and every reported dispatch/DCF/storage cell coincide with the baseline for all parameter values, prices and feasible points. Names come from a fixed list (structure), numbers are symbolic.'),
 }
 NA = {}
 props = [json.loads(l) for l in open(os.path.join(ROOT, 'properties.jsonl'))]
